@@ -5,9 +5,10 @@ use crate::props::Prop;
 use crate::replay::Replay;
 use std::time::{Duration, Instant};
 
-fn fails(prop: &'static dyn Prop, case: &Case, oracle: &str) -> Option<Violation> {
+/// the same oracle fires (with the same structural signature, when one is given)
+fn fails(prop: &'static dyn Prop, case: &Case, oracle: &str, sig: Option<&str>) -> Option<Violation> {
     let r = crate::runner::run_case(prop, case);
-    r.viol.into_iter().find(|v| v.oracle == oracle)
+    r.viol.into_iter().find(|v| v.oracle == oracle && sig.map_or(true, |s| v.sig == s))
 }
 
 fn op_shrinks(op: &Op) -> Vec<Op> {
@@ -75,7 +76,7 @@ fn op_shrinks(op: &Op) -> Vec<Op> {
     out
 }
 
-pub fn minimise(prop: &'static dyn Prop, start: &Case, oracle: &str, budget: Duration) -> (Case, Option<Violation>, u64) {
+pub fn minimise(prop: &'static dyn Prop, start: &Case, oracle: &str, sig: Option<&str>, budget: Duration) -> (Case, Option<Violation>, u64) {
     let t0 = Instant::now();
     let mut best = start.clone();
     let mut last_v = None;
@@ -85,7 +86,7 @@ pub fn minimise(prop: &'static dyn Prop, start: &Case, oracle: &str, budget: Dur
             return false;
         }
         evals += 1;
-        if let Some(v) = fails(prop, cand, oracle) {
+        if let Some(v) = fails(prop, cand, oracle, sig) {
             *best = cand.clone();
             *last_v = Some(v);
             true
@@ -245,11 +246,13 @@ pub fn run(inp: &str, out: &str) -> i32 {
         Some(p) => p,
         None => return 2,
     };
-    if fails(prop, &r.case, &r.oracle).is_none() {
+    if fails(prop, &r.case, &r.oracle, None).is_none() {
         eprintln!("minimise: the case does not reproduce in this process");
         return 3;
     }
-    let (best, v, evals) = minimise(prop, &r.case, &r.oracle, Duration::from_secs(90));
+    // keep the structural signature stable while shrinking, if this very case reproduces it
+    let sig = if fails(prop, &r.case, &r.oracle, Some(&r.sig)).is_some() { Some(r.sig.as_str()) } else { None };
+    let (best, v, evals) = minimise(prop, &r.case, &r.oracle, sig, Duration::from_secs(90));
     let v = v.unwrap_or(Violation { oracle: r.oracle.clone(), sig: r.sig.clone(), detail: r.detail.clone() });
     let rep = Replay { case: best, oracle: v.oracle, sig: v.sig, detail: v.detail, minimised: true, tier: r.tier };
     if std::fs::write(out, rep.to_json().pretty()).is_err() {
